@@ -22,16 +22,20 @@ NULL_LOG2 = -20.0
 
 
 class Read:
-    __slots__ = ("tid", "pos", "qlen", "left_clip", "right_clip", "flag", "mapq", "name")
+    __slots__ = ("tid", "pos", "qlen", "left_clip", "right_clip", "flag", "mapq", "name", "ins")
 
-    def __init__(self, tid, pos, qlen, left_clip, right_clip, flag, mapq, name):
+    def __init__(self, tid, pos, qlen, left_clip, right_clip, flag, mapq, name, ins=None):
         self.tid, self.pos, self.qlen = tid, pos, qlen
         self.left_clip, self.right_clip = left_clip, right_clip
         self.flag, self.mapq, self.name = flag, mapq, name
+        # (offset into the aligned part, inserted length): an insertion consumes query bases
+        # only, so the read still covers `aligned` contiguous reference bases - in two blocks
+        self.ins = ins
 
     @property
     def aligned(self):
-        return self.qlen - self.left_clip - self.right_clip
+        """Reference bases covered (soft clips and inserted bases excluded)."""
+        return self.qlen - self.left_clip - self.right_clip - (self.ins[1] if self.ins else 0)
 
     def counted(self, min_mapq):
         if self.flag & (FLAG_UNMAP | FLAG_SECONDARY | FLAG_QCFAIL | FLAG_DUP):
@@ -144,6 +148,11 @@ def gen_workload(tape, tier):
         if aligned > clen:
             aligned = clen
             qlen = aligned + lc + rc
+        ins = None
+        if aligned >= 12 and rng.random() < 0.12:
+            k_ins = int(rng.integers(1, 6))
+            ins = (int(rng.integers(3, aligned - 3)), k_ins)  # aligned part stays `aligned` long
+            qlen += k_ins
         where = rng.random()
         if where < 0.35 and edges:
             # straddle (or just touch / just miss) a bin edge
@@ -152,6 +161,7 @@ def gen_workload(tape, tier):
             if aligned > clen:
                 aligned = clen
                 qlen = aligned + lc + rc
+                ins = None
             off = int(rng.integers(-aligned - 1, 2))
             pos = epos + off
         elif where < 0.42:
@@ -182,7 +192,12 @@ def gen_workload(tape, tier):
             mapq = int(cutoffs[int(rng.integers(0, len(cutoffs)))])
         else:
             mapq = int(rng.integers(0, 61))
-        reads.append(Read(ci, pos, qlen, lc, rc, flag, mapq, f"r{k}"))
+        reads.append(Read(ci, pos, qlen, lc, rc, flag, mapq, f"r{k}", ins))
+    # reads that cover one bin exactly, base for base (mean depth exactly 1 where nothing else lands)
+    if rows and tape.chance(1, 3, "bam.exact_cover"):
+        cand = [r_ for r_ in rows if 30 <= r_[2] - r_[1] <= 150 and r_[2] <= contigs[r_[0]][1]]
+        for j, (ci, s_, e_, _nm) in enumerate(cand[:3]):
+            reads.append(Read(ci, s_, e_ - s_, 0, 0, 0, 60, f"x{j}"))
     reads.sort(key=lambda r: (r.tid, r.pos))
     # unplaced unmapped reads (no contig, no position): stored after all placed reads in a
     # coordinate-sorted BAM
@@ -285,7 +300,10 @@ def write_bam(wl, path, index=True):
                 cig = []
                 if r.left_clip:
                     cig.append((4, r.left_clip))
-                cig.append((0, r.aligned))
+                if r.ins:
+                    cig += [(0, r.ins[0]), (1, r.ins[1]), (0, r.aligned - r.ins[0])]
+                else:
+                    cig.append((0, r.aligned))
                 if r.right_clip:
                     cig.append((4, r.right_clip))
                 a.cigartuples = cig
